@@ -461,5 +461,5 @@ def tasks(tier):
     for i in range(8 if q else 16):
         tl.append(('random_%d' % i, t_random,
                    dict(versions=ERA_VERSIONS + extra,
-                        n=120 if q else 2500)))
+                        n=300 if q else 2500)))
     return tl
